@@ -7,6 +7,7 @@ import (
 
 // Ghost state of the barrier harnesses. It is only ever touched from harness code.
 type vBarrierGhost struct {
+	safety    bool // the run decides C16 (safety clauses) rather than C17 (liveness at quiescence)
 	inside    [3]bool // accessor i currently holds a token (set after Acquire returned, cleared before Release is called)
 	gen       [3]int  // number of Acquires completed by accessor i
 	snapIn    [4][3]bool
@@ -36,6 +37,10 @@ func (g *vBarrierGhost) destructor(ref unsafe.Pointer) {
 		return
 	}
 	g.destroyed[k]++
+	g.ncalls++
+	if !g.safety {
+		return
+	}
 	if g.destroyed[k] > 1 {
 		vFail("destructor ran twice for one flush")
 	}
@@ -49,7 +54,6 @@ func (g *vBarrierGhost) destructor(ref unsafe.Pointer) {
 			vFail("destructor ran while an accessor that entered before the flush is still inside")
 		}
 	}
-	g.ncalls++
 }
 
 // H_C16: access barrier used directly. Accessors (optionally nested) and a flusher (optionally holding a token
@@ -57,7 +61,9 @@ func (g *vBarrierGhost) destructor(ref unsafe.Pointer) {
 // Safety (C16): ordered, exactly-once destruction, only after earlier accessors left; no "unsafe reclamation" panic.
 // Liveness at quiescence (C17): once everybody is done, every flush has been destructed and the queue is empty.
 func H_C16() {
-	g := &vBarrierGhost{}
+	// bound prop: 16 = the safety clauses are asserted (C16), 17 = the liveness clauses at quiescence (C17); one
+	// harness drives both, but a run only reports on the property it was started for
+	g := &vBarrierGhost{safety: vBound("prop") == 16}
 	for i := 1; i < 4; i++ {
 		g.refs[i] = new(int)
 	}
@@ -77,7 +83,9 @@ func H_C16() {
 			t := ab.Acquire()
 			g.gen[i]++
 			g.inside[i] = true
-			vAssert(t != nil && t.closed == 0, "an accessor is never counted in a session that is already being destructed")
+			if g.safety {
+				vAssert(t != nil && t.closed == 0, "an accessor is never counted in a session that is already being destructed")
+			}
 			if nested {
 				u := ab.Acquire()
 				ab.Release(u)
@@ -107,9 +115,13 @@ func H_C16() {
 	wg.Wait()
 	vConcurrent(false)
 	// quiescence: every token released, no call in progress
-	vAssert(g.ncalls == nflush, "C17: at quiescence the destructor has run for every FlushSession")
-	alloc, freed, queued, _ := ab.GetStats()
-	vAssert(queued == 0, "C17: free queue empty at quiescence")
-	vAssert(alloc-1 == freed, "C17: every closed session was terminated")
+	if g.safety {
+		vAssert(g.ncalls <= nflush, "C16: the destructor runs at most once per flush")
+	} else {
+		vAssert(g.ncalls == nflush, "C17: at quiescence the destructor has run for every FlushSession")
+		alloc, freed, queued, _ := ab.GetStats()
+		vAssert(queued == 0, "C17: free queue empty at quiescence")
+		vAssert(alloc-1 == freed, "C17: every closed session was terminated")
+	}
 	vReach("c16-done")
 }
